@@ -7,6 +7,7 @@ package props
 import (
 	"bufio"
 	"bytes"
+	"compress/gzip"
 	"fmt"
 	"io"
 	"sort"
@@ -354,7 +355,7 @@ func exhaustiveC07(thorough bool, emit func(C07Case) bool) {
 		"sam":    {{"@HD\tVN:1", "q1\t0\tr\t1\t2\t3M\t=\t4\t5\tACG\tIII\tXX:i:12345", "q2\t16\tr\t7\t8\t3M\t=\t9\t10\tTTT\tJJJ\tYY:Z:abc\tZZ:f:1.5"}},
 		"samh":   {{"@HD\tVN:1", "@SQ\tSN:r", "q1\t0\tr\t1\t2\t3M\t=\t4\t5\tACG\tIII\tXX:i:12345", "q2\t16\tr\t7\t8\t3M\t=\t9\t10\tTTT\tJJJ"}},
 		"bed":    {{"chr1\t10\t20\tn1\t5\t+", "chr2\t30\t45\tn2\t7\t-", "# comment", "chr3\t1\t2\tn3\t0\t."}, {"c\t100\t200", "d\t300\t400"}},
-		"newick": {{"(a:1,b:2)c;", "((d,e)f,g)h:12.5;", "i;"}, {"(a,(b,c))d;(e)f;"}},
+		"newick": {{"(a:1,b:2)c;", "((d,e)f,g)h:12.5;", "i;"}, {"(a,(b,c))d;(e)f;"}, {"(a[first],b[&rate=0.5,hpd={0.1,0.2}]:2)c[root]:1;", "(d,e)f;"}},
 	}
 	for _, f := range codecNames {
 		for _, lines := range inputs[f] {
@@ -368,6 +369,20 @@ func exhaustiveC07(thorough bool, emit func(C07Case) bool) {
 			if !emit(C07Case{Kind: "read", Format: f, Text: StreamText{Lines: ls, Reps: 4200/len(StreamText{Lines: ls}.Render(false)) + 1}, Seed: 7}) {
 				return
 			}
+		}
+	}
+	// the gzip-compressed form of a well-formed text handed to Reader as it is (Reader does not
+	// decompress; whatever it makes of these bytes, a failing stream is reported)
+	for _, f := range codecNames {
+		var plain, zipped bytes.Buffer
+		for _, l := range inputs[f][0] {
+			plain.WriteString(l + "\n")
+		}
+		zw := gzip.NewWriter(&zipped)
+		zw.Write(plain.Bytes())
+		zw.Close()
+		if !emit(C07Case{Kind: "read", Format: f, Text: StreamText{Raw: zipped.Bytes()}}) {
+			return
 		}
 	}
 	// the same inputs with one or two blank lines inserted at a line boundary (malformed for some
